@@ -959,17 +959,22 @@ class _Builder:
         init = t[4]
         if not ((op(init) in ("dict", "list", "set", "tuple") and not init[1]) or (isinstance(init, tuple) and len(init) == 2 and init[1] == ())):
             return False
-        for ev in p.events:
-            for x in (ev.a, ev.b):
-                if not isinstance(x, tuple):
-                    continue
-                if ev.kind == "bind" and x is ev.b and x == t:
-                    continue  # the allocation itself / an alias
-                if ev.kind == "guard":
-                    continue
-                if contains(x, lambda y: y == t):
-                    return False
-        return True
+        def touched(events) -> bool:
+            for ev in events:
+                for x in (ev.a, ev.b):
+                    if not isinstance(x, tuple):
+                        continue
+                    if ev.kind == "bind" and x is ev.b and x == t:
+                        continue  # the allocation itself / an alias
+                    if ev.kind == "guard":
+                        continue
+                    if contains(x, lambda y: y == t):
+                        return True
+                if ev.body and any(touched(q.events) or (q.out is not None and len(q.out) > 1 and isinstance(q.out[1], tuple) and contains(q.out[1], lambda y: y == t)) for q in ev.body):
+                    return True
+            return False
+
+        return not touched(p.events)
 
     def _fold_empty_len(self, test, p):
         if not contains(test, lambda y: op(y) == "call" and y[1] == ("builtin", "len") and len(y[2]) == 1 and op(y[2][0]) == "new"):
